@@ -8,6 +8,8 @@ mod interpose;
 mod layouts;
 mod report;
 mod sched;
+#[cfg(feature = "xen")]
+mod xen_emu;
 mod props;
 
 use report::{Ctx, Tier};
